@@ -313,6 +313,19 @@ def run (info : Nat → EntInfo) : CC → List Op → CC × List Res
     let (c2, rs) := run info c1 os
     (c2, r :: rs)
 
+/-- the `SessionCache` method an operation is a call of -/
+def Op.method : Op → String
+  | .store _ => "Store" | .lookup _ => "Lookup" | .lookupNE _ => "LookupNonExpired" | .byCmd _ => "LookupByCommand"
+  | .mapCmd _ _ => "MapCommand" | .invalidate _ => "Invalidate" | .gc => "InvalidateExpired" | .clear => "Clear"
+  | .size => "Size" | .snapshot => "Snapshot" | .dump => "DebugDump"
+
+/-- the regenerated table of cache calls on the two resumption paths (`handleSessionResumption`,
+    `resumeSession`): it sees both functions (not vacuous) and lists no `Store` -/
+def resumeCallsOK (tbl : List (String × String)) : Bool :=
+  tbl.any (fun p => p.1 == "handleSessionResumption" && p.2 == "LookupNonExpired") &&
+  tbl.any (fun p => p.1 == "resumeSession") &&
+  tbl.all (fun p => p.2 != "Store")
+
 /-- the session key a result names, if it names an entry -/
 def Res.names (info : Nat → EntInfo) (k : Nat) : Res → Bool
   | .ent (some u) => (info u).key == k
@@ -366,6 +379,21 @@ def declaredConfigWrites : List (String × String) :=
 
 def configWritesOK (ws : List (String × String × String)) : Bool :=
   ws.all (fun w => declaredConfigWrites.contains (w.1, w.2.2))
+
+/-- The fact tables the inclusion theorems quantify over are not empty and still see the code they
+    are about (a renamed function, field or type would otherwise make the inclusions hold
+    vacuously): the call sites of the server, the client and the CCB, the one declared write of
+    `NewAuthenticator`, the package-level cache pointer, the stream methods of both directions. -/
+def tablesInhabited (sites : List (String × String × String × String)) (ws : List (String × String × String))
+    (gl : List (String × String × String)) (sm : List (String × List String × List String × List String))
+    (cm : List (String × List (String × String × String × String))) : Bool :=
+  sites.any (fun s => s.1 == "server/server.go" && s.2.1 == "ServeConn") &&
+  sites.any (fun s => s.1 == "client/client.go") &&
+  sites.any (fun s => s.2.2.1 == "ServerConfigForCommand=") &&
+  ws.any (fun w => w.1 == "NewAuthenticator" && w.2.2 == "ECDHPublicKey") &&
+  gl.any (fun g => g.1 == "globalSessionCache") && gl.any (fun g => g.1 == "sessionCounter") &&
+  sm.any (fun m => m.1 == "SendMessage" && !m.2.1.isEmpty) && sm.any (fun m => m.1 == "ReceiveFrameWithEnd" && !m.2.1.isEmpty) &&
+  cm.any (fun m => m.1 == "SessionCache.Store" && !m.2.isEmpty) && cm.any (fun m => m.1 == "SessionCache.Invalidate" && !m.2.isEmpty)
 
 end Cfg
 
